@@ -144,7 +144,6 @@ def BlockRel : List Frame → List DBlock → Prop
 /-- shapes of frame stacks the grammar reaches -/
 def FsOk : List Frame → Bool
   | [] => true
-  | .metadata :: r => r.isEmpty
   | .inline :: r => inlineAllowed r && FsOk r
   | .item :: r => (match r with | .list true :: _ => true | _ => false) && FsOk r
   | _ :: r => blockAllowed r && FsOk r
@@ -483,17 +482,17 @@ theorem step_pres (content : Position.Bytes) {fs fs' : List Frame} {st : St} (ev
     subst hstep
     exact ⟨_, rfl, hrel⟩
   | startMeta =>
-    inv_step hstep
+    inv_step hstep; rename_i ha
     obtain ⟨hok, hb, hinl, hmb⟩ := hrel
-    exact ⟨_, rfl, rfl, by simpa [BlockRel, isBlock] using hb, by simpa [inlDepth] using hinl,
-      by simp [isMeta]⟩
+    exact ⟨_, rfl, by simp [FsOk, ha, hok], by simpa [BlockRel, isBlock] using hb,
+      by rw [inlDepth_of_blockAllowed ha] at hinl; simpa [inlDepth] using hinl, by simp [isMeta]⟩
   | endMeta =>
     inv_step hstep
     obtain ⟨hok, hb, hinl, hmb⟩ := hrel
-    simp only [FsOk, List.isEmpty_iff] at hok
-    subst hok
-    exact ⟨_, rfl, rfl, by simpa [BlockRel, isBlock] using hb, by simpa [inlDepth] using hinl,
-      by simp [isMeta]⟩
+    simp only [FsOk, Bool.and_eq_true] at hok
+    exact ⟨_, rfl, hok.2, by simpa [BlockRel, isBlock] using hb,
+      by rw [inlDepth_of_blockAllowed hok.1]; simpa [inlDepth] using hinl,
+      by rw [isMeta_of_blockAllowed hok.1]⟩
   | startInline k s e =>
     inv_step hstep; rename_i ha
     obtain ⟨hok, hb, hinl, hmb⟩ := hrel
